@@ -1309,6 +1309,9 @@ pub fn c14(rec: &mut Rec, rng: &mut Rng, thorough: bool) {
     for i in 0..n {
         let mut o = ReqOpts::default();
         o.body_lens = vec![0, 0, 1, 5, 26, 100, 1500];
+        if i % 4 == 1 {
+            o.expect_pct = 70;
+        }
         let p = gen::valid_request(rng, &o);
         let which = gen::CORRUPTIONS[i % gen::CORRUPTIONS.len()];
         let mut bytes = match i % 3 {
@@ -1321,6 +1324,16 @@ pub fn c14(rec: &mut Rec, rng: &mut Rng, thorough: bool) {
             1 => bytes.extend_from_slice(&gen::valid_request(rng, &o).bytes()),
             2 if !bytes.is_empty() => {
                 bytes.pop();
+            }
+            3 => {
+                // the slice ends exactly after the header terminator although a body is declared (or somewhere inside it)
+                if let Some(p) = bytes.windows(4).position(|w| w == b"\r\n\r\n") {
+                    let head_end = p + 4;
+                    if head_end < bytes.len() {
+                        let keep = if rng.chance(2, 3) { head_end } else { rng.range(head_end, bytes.len() - 1) };
+                        bytes.truncate(keep);
+                    }
+                }
             }
             _ => {}
         }
